@@ -50,6 +50,7 @@ fn main() {
         "C12" => props::c12::run(&a),
         "C20" => props::c20::run(&a),
         "C18" => props::c18::run(&a),
+        "C15" => props::c15::run(&a),
         _ => { eprintln!("unknown property {}", prop); std::process::exit(2); }
     }
 }
